@@ -734,7 +734,12 @@ pub fn family_ops(idx: u64, seed: u64, class: Class, max_n: usize) -> (Vec<Op>, 
     let kind = (idx % FAMILY_KINDS as u64) as usize;
     let full = class == Class::Full;
     let max_n = max_n.max(3);
-    let pick_n = |rng: &mut Rng, lo: usize, hi: usize| lo + rng.below(hi.min(max_n).max(lo) - lo + 1);
+    // sizes: the per-kind default upper bound, capped by max_n; max_n > 12 stretches rings, lists,
+    // stars and chords up to max_n (cliques and multi-edge shapes stay small: they grow quadratically)
+    let pick_n = |rng: &mut Rng, lo: usize, hi: usize| {
+        let top = if max_n > 12 && hi >= 9 { max_n } else { hi.min(max_n) };
+        lo + rng.below(top.max(lo) - lo + 1)
+    };
     let mut rec = |rng: &mut Rng| -> u8 {
         if full || rng.chance(17, 20) {
             1 + rng.below(2) as u8
